@@ -38,7 +38,7 @@ def handleParse (j : Json) : Json :=
   let a := additionOf (str! (fld j "addition"))
   match str! (fld j "kind") with
   | "options" => Json.mkObj [("addition", Json.str (additionName (normAddition ndl a)))]
-  | "schema" => Json.mkObj [("fate", Json.str (match unknownKey (normAddition ndl a) with
+  | "schema" => Json.mkObj [("fate", Json.str (match unknownKey (bool! (fld j "excluded")) (normAddition ndl a) with
       | .rejected => "rejected" | .dropped => "dropped" | .kept => "kept"))]
   | "tuple" => Json.mkObj [("excess", Json.arr ((tupleExcess (normAddition ndl a) ndl (nat! (fld j "nargs")) (nat! (fld j "nvals"))).map
       (fun (n : Nat) => Json.num n)).toArray)]
